@@ -7,3 +7,4 @@ import BV.C15.LemmasScript
 import BV.C15.LemmasRec
 import BV.C15.LemmasFix
 import BV.C15.LemmasV0
+import BV.C15.LemmasAmt2
